@@ -100,7 +100,12 @@ structure S where
 def maxCache : Nat := 65536            -- maxWriteCacheOrFlushSize
 def maxSendfile : Nat := 4194304       -- maxSendfileSize
 
-def fileRange (g : Cfg) (off n : Nat) : Bytes := (List.range n).map fun i => g.file (off + i)
+/-- bytes `off … off+n-1` of the file, built back to front in one pass (the driver runs this on 4 MiB ranges);
+    `fileRange_eq`: it is `(List.range n).map fun i => g.file (off + i)` -/
+def fileRangeAux (g : Cfg) (off : Nat) : Nat → Bytes → Bytes
+  | 0, acc => acc
+  | n + 1, acc => fileRangeAux g off n (g.file (off + n) :: acc)
+def fileRange (g : Cfg) (off n : Nat) : Bytes := fileRangeAux g off n []
 
 def total (bs : List Bytes) : Nat := (bs.map List.length).sum
 
@@ -530,6 +535,17 @@ def Item.rest (g : Cfg) : Item → Bytes
 
 /-- the bytes still queued, in order -/
 def pending (g : Cfg) (wl : List Item) : Bytes := (wl.map (Item.rest g)).flatten
+
+/-- fold over a file range without building it (`foldFile_eq`); for the driver's hash of `pending` -/
+def foldFile {α : Type} (g : Cfg) (f : α → UInt8 → α) : Nat → Nat → α → α
+  | _, 0, a => a
+  | off, rem + 1, a => foldFile g f (off + 1) rem (f a (g.file off))
+
+/-- `(pending g wl).foldl f a` without building the list (`foldPending_eq`) -/
+def foldPending {α : Type} (g : Cfg) (f : α → UInt8 → α) : List Item → α → α
+  | [], a => a
+  | .buf d off :: tl, a => foldPending g f tl ((d.drop off).foldl f a)
+  | .file off rem :: tl, a => foldPending g f tl (foldFile g f off rem a)
 
 def Item.held : Item → Nat
   | .buf d off => d.length - off
